@@ -60,8 +60,9 @@ class Query:
     in_u32() are symbolic.  witnesses: names of WITNESS_AT points that must be reachable (twin run)."""
 
     def __init__(self, name, defs=(), witnesses=(), unwind=2, timeout=900, est_gb=3, hardcap=40,
-                 extra_cbmc=(), sample=None, profile=None, required_sat=(), harness_unwind=18, trust_solver=False, expect_fail=False):
+                 extra_cbmc=(), sample=None, profile=None, required_sat=(), harness_unwind=18, trust_solver=False, expect_fail=False, floor=None):
         self.name = name
+        self.floor = floor          # {regex on loop id: minimal bound given up front} for loops whose need the concrete profile cannot see
         self.defs = list(defs)
         self.witnesses = list(witnesses)
         self.unwind = unwind
@@ -296,6 +297,8 @@ def run_cbmc(u, q, defs, unwindset, timeout, log, verbosity=None, extra=()):
     def lim():
         os.setsid()
         resource.setrlimit(resource.RLIMIT_AS, (28 << 30, 28 << 30))
+    with open(log + '.cmd', 'w') as cf:
+        cf.write(' '.join(cmd) + '\n')
     with open(log, 'w') as lf:
         p = subprocess.Popen(cmd, stdout=lf, stderr=subprocess.STDOUT, preexec_fn=lim)
         try:
@@ -429,6 +432,13 @@ def harness_loops(u, defs):
     get a generous bound up front instead of being discovered one unwinding assertion at a time"""
     cmd = ['cbmc', os.path.join(VERIF, u.main_c), '-I', TOOLS, '-I', u.dir] + u.inc + defs + ['--show-loops']
     p = subprocess.run(cmd, stdout=subprocess.PIPE, stderr=subprocess.STDOUT, text=True, errors='replace', timeout=120)
+    return re.findall(r'^Loop (\S+):', p.stdout, re.M)
+
+
+def all_loops(u, defs):
+    """loop ids of the generated model (all.c)"""
+    cmd = ['cbmc', os.path.join(u.dir, 'all.c'), '-I', TOOLS, '-I', u.dir] + u.inc + defs + ['--show-loops']
+    p = subprocess.run(cmd, stdout=subprocess.PIPE, stderr=subprocess.STDOUT, text=True, errors='replace', timeout=300)
     return re.findall(r'^Loop (\S+):', p.stdout, re.M)
 
 
@@ -601,6 +611,10 @@ class Runner:
                 hints = {k: v + 1 for k, v in tot.items() if v + 1 > q.unwind}
                 for lid in harness_loops(u, q.defs + kf_defs):
                     hints[lid] = max(hints.get(lid, 0), q.harness_unwind)
+                for pat, lo in (getattr(q, 'floor', None) or {}).items():
+                    for lid in all_loops(u, q.defs + kf_defs):
+                        if re.match(pat, lid):
+                            hints[lid] = max(hints.get(lid, 0), lo)
                 note['profile_runs'] = len(q.profile)
                 note['profile_s'] = round(time.time() - t0, 1)
             r = decide(u, q, defs, lp, hints, note)
